@@ -141,7 +141,7 @@ theorem reorder_reference_world (g h : Img) (ord : Order)
         intro r hr'
         have hr'' : r < o.length := by rw [hl]; exact List.mem_range.mp hr'
         have hw' : (reorderRefP g o).world j r = g.world j (o.getD r 0) := by
-          simp only [Img.world, reorderRefP]
+          simp only [ImgOf.world, reorderRefP]
           rw [lin_reindex (fun r => o.getD r 0) g.cols j r]
         rw [hw']
         simp only [reorderRefP]
@@ -229,14 +229,18 @@ theorem iter_axis_disjoint (g h : Img) (k : Nat) (hw : WF g) (hk : k < g.shape.h
       subst hN'
       simp [selIdx]
 
-/-- `as_xyz_image` — PARTIAL in one respect: `io_orientation` (nibabel, SVD based) and hence
-    *which* order is chosen and whether the result is accepted as "xyz affable" are parameters
-    (`o0 o1 o2`), not modelled.  For every value of these parameters, whatever image the code
-    returns is derived from the original (a reordering of reference and axes, or the input
-    itself). -/
-theorem as_xyz_sound_partial (g h : Img) (m : List (String × Nat)) (o0 o1 o2 : List (Option Nat))
-    (hw : WF g) (hres : asXyz g m o0 o1 o2 = .ok h) : Embeds g h ∧ WF h :=
-  asXyz_embeds g h m o0 o1 o2 hw hres
+/-- `as_xyz_image` — PARTIAL in one respect: the SVD inside `io_orientation` (nibabel) is not
+    modelled, so *which* order is chosen and whether the result is accepted as "xyz affable" depend
+    on the parameter `orient` (the orientation of each of the three affines the code looks at; for
+    affines with a monomial linear part the model computes it itself, `XyzSrc.mono` / `monoOrnt`,
+    and the loop after the SVD is `ioOrientFrom`, see `io_orientation_injective` in Props/C02B).
+    For every value of that parameter, whatever image the code returns is derived from the
+    original (a reordering of reference and axes, or the input itself); the order handed to
+    `reordered_axes` is always a permutation (`argsort_is_permutation`). -/
+theorem as_xyz_sound_partial (g h : Img) (m : List (String × Nat))
+    (orient : Img → Nat → List (Option Nat))
+    (hw : WF g) (hres : asXyz g m orient = .ok h) : Embeds g h ∧ WF h :=
+  asXyz_embeds g h m orient hw hres
 
 /-! ## Every operation, every history -/
 
